@@ -757,10 +757,10 @@ class Sim(object):
             if kk in exp:
                 num, ver, kind = exp[kk]
                 if v['ref'] is None or num not in v['ref']:
-                    self.violation('C20|observation|number', {'label': lab, 'saved': v, 'expected': num})
+                    self.violation('C20|save|number', {'label': lab, 'saved': v, 'expected': num})
                     return
         if sorted(saved) != sorted('d%dL%d' % (i, it[1]) for it in self.docs[i]['items']):
-            self.violation('C20|observation|labelset', {'saved': sorted(saved), 'doc': self.docs[i]['items']})
+            self.violation('C20|save|labelset', {'saved': sorted(saved), 'doc': self.docs[i]['items']})
             return
         # I2 / I3 / I4: what this job restored from the other documents' files
         restored = res['restored'] or {}
